@@ -99,7 +99,9 @@ def site_load_slice(out, eng):
                            Ref(Cell(Lazy("Arc<SymbolicValue<()>>", "sz"), "sz"), ()), Int(z3.BitVec("ip", 32), 32)])
         return r, ctx
     return decide_site(out, "B.load_slice.offset_plus_size", ex, body, f.name,
-                       pre=[z3.UGE(z3.BitVec("mem.2", 64), 1)] if False else [],
+                       # the template runs under the default configuration: prefer models whose size is below the
+                       # configured limit (so that min(size, limit) = size) and fits a PUSH2
+                       prefer=[z3.ULE(SIZE, 0x2000), z3.UGE(z3.BitVec("mem.2", 64), SIZE)],
                        template=lambda m: {"hex": push(max(1, ev(m, SIZE) & 0xffff)) + push(ev(m, OFFW) & (2**64 - 1), 8) + "20"},
                        key="memory-load-slice-offset-plus-size-overflows",
                        what="Memory::load_slice computes `offset + min(size, limit)` on usize with offset = low 64 bits of an arbitrary constant")
@@ -157,7 +159,7 @@ def site_sub_word(out, eng):
     return ex, body, (MO, ML, SH), template
 
 
-def decide_site(out, oid, ex, body, fn_name, template, key, what, pre=None):
+def decide_site(out, oid, ex, body, fn_name, template, key, what, pre=None, prefer=None):
     t0 = time.time()
     try:
         paths = ex.explore(body)
@@ -169,12 +171,16 @@ def decide_site(out, oid, ex, body, fn_name, template, key, what, pre=None):
     panics = [p for p in paths if p.kind == "panic" and "MIR assert" in p.msg and short in p.msg]
     others = [p for p in paths if p.kind == "panic" and p not in panics]
     reach = None
-    for p in panics:
-        s = z3.Solver()
-        for c in p.pc + (pre or []):
-            s.add(c)
-        if s.check() == z3.sat:
-            reach = (p, s.model())
+    # first look for a model the replay template can express exactly (`prefer`), then for any model
+    for extra_c in ([prefer] if prefer else []) + [[]]:
+        for p in panics:
+            s = z3.Solver()
+            for c in p.pc + (pre or []) + extra_c:
+                s.add(c)
+            if s.check() == z3.sat:
+                reach = (p, s.model())
+                break
+        if reach:
             break
     if reach is None:
         out.obligation(oid, "mirsmt", "holds", time.time() - t0, witness=bool(paths), paths=len(paths), assert_paths=len(panics),
@@ -190,8 +196,8 @@ def decide_site(out, oid, ex, body, fn_name, template, key, what, pre=None):
                                   replay={"engine": "mirsmt", "obligation": oid, "program": params, "native": rep}))
     else:
         out.obligation(oid, "mirsmt", "sat-unconfirmed", time.time() - t0, witness=False, note=what, replay=rep, program=params)
-        out.notes.append("%s: the assert is reachable for some inputs of the function but the template program did not panic "
-                         "through analyze(); undecided (neither held nor violated)" % oid)
+        out.inconc("%s: the assert is reachable for some inputs of the function but the template program did not panic "
+                   "through analyze(); undecided (neither held nor violated)" % oid)
     return paths
 
 
